@@ -97,3 +97,85 @@ Example ex_setmetatable_protected : is_err_unchanged st_p (builtin_call 3 [] BSe
 Proof. apply setmetatable_protected_lemma. reflexivity. Qed.
 Example ex_tostring_handler : exists s', tostring_v 40 [] (VTab 11) st_p = Ret (VNum 99%float) s'.
 Proof. eexists. rewrite (tostring_handler_lemma 39 [] (VTab 11) st_p eq_refl). vm_compute. reflexivity. Qed.
+
+(* ---------- wave 5: whole chains and the documented depth (Lua/MetaChainFacts.v) ---------- *)
+From Coq Require Import List. Import ListNotations.
+From GL Require Import Lua.MetaChainFacts.
+
+(* [chain_tabs ev prev m]: m further objects, each an empty table whose metatable {ev = previous object}
+   sits just before it; the previous object has index [prev] *)
+Fixpoint chain_tabs (ev : bytes) (prev m : nat) : list tab :=
+  match m with
+  | O => []
+  | S m' => mkTab [(VStr ev, VTab prev)] None :: mkTab [] (Some (S prev)) :: chain_tabs ev (S (S prev)) m'
+  end.
+
+Definition t0 : nat := Eval vm_compute in length (tabs st).
+(* a chain of m objects: the last one (index t0) is [base]; the head has index t0 + 2 (m - 1) *)
+Definition chain_state (ev : bytes) (base : tab) (m : nat) : state :=
+  with_tabs st (tabs st ++ base :: chain_tabs ev t0 (m - 1)).
+Definition head_of (m : nat) : value := VTab (t0 + 2 * (m - 1)).
+Definition links_of (m : nat) : list value := map (fun j => VTab (t0 + 2 * j)) (rev (seq 0 (m - 1))).
+
+(* 100 objects, the key nowhere, no handler on the last: nil -- the 100th object is examined *)
+Definition st100 := chain_state s_mm_index (mkTab [] None) 100.
+Example ex_chain100_hyp : chain s_mm_index st100 k_z (head_of 100) (links_of 100) /\ length (links_of 100) = 99%nat
+  /\ last (links_of 100) (head_of 100) = VTab t0.
+Proof. vm_compute. repeat split. Qed.
+Example ex_chain100_absent : forall n, index (99 + S n) [] (head_of 100) k_z 100 st100 = Ret VNil st100.
+Proof.
+  intros n. destruct ex_chain100_hyp as (Hc & Hl & Hlast).
+  apply (index_chain_last_absent_lemma [] k_z st100 (links_of 100) (head_of 100) n 100 t0 Hc); try reflexivity.
+  rewrite Hl. repeat constructor.
+Qed.
+
+(* 100 objects, the last one holds the key *)
+Definition st100h := chain_state s_mm_index (mkTab [(k_z, VNum 7%float)] None) 100.
+Example ex_chain100_hit : forall n, index (99 + S n) [] (head_of 100) k_z 100 st100h = Ret (VNum 7%float) st100h.
+Proof.
+  intros n. assert (Hc : chain s_mm_index st100h k_z (head_of 100) (links_of 100)) by (vm_compute; repeat split).
+  apply (index_chain_last_hit_lemma [] k_z st100h (links_of 100) (head_of 100) n 100 t0 Hc); try reflexivity.
+  vm_compute. repeat constructor.
+Qed.
+
+(* 100 objects, the last one's metatable (table 9 of st) has __index = closure 3: it is called with
+   (last object, key): the key is emitted and 99 returned *)
+Definition st100f := chain_state s_mm_index (mkTab [] (Some 9%nat)) 100.
+Example ex_chain100_handler : exists s', index (99 + 40) [] (head_of 100) k_z 100 st100f = Ret (VNum 99%float) s' /\ trace s' = [[k_z]].
+Proof.
+  assert (Hc : chain s_mm_index st100f k_z (head_of 100) (links_of 100)) by (vm_compute; repeat split).
+  assert (Hh : index (99 + 40) [] (head_of 100) k_z 100 st100f =
+               first_of (call 39 [] (metafield st100f (VTab t0) s_mm_index) [VTab t0; k_z] st100f)).
+  { apply (index_chain_last_handler_lemma [] k_z st100f (links_of 100) (head_of 100) 39 100 Hc);
+      [vm_compute; repeat constructor | vm_compute; reflexivity | vm_compute; reflexivity]. }
+  eexists. rewrite Hh. split; vm_compute; reflexivity.
+Qed.
+
+(* 101 objects: an error, although the key is nowhere and no handler would run *)
+Definition st101 := chain_state s_mm_index (mkTab [] None) 101.
+Example ex_chain101_error : forall n, index (100 + S n) [] (head_of 101) k_z 100 st101 = Err (VFault 1 (frames_line [])) st101.
+Proof.
+  intros n. assert (Hc : chain s_mm_index st101 k_z (head_of 101) (links_of 101)) by (vm_compute; repeat split).
+  apply (index_chain_beyond_depth_lemma [] k_z st101 (links_of 101) (head_of 101) n 100 Hc). reflexivity.
+Qed.
+
+(* assignment through 100 objects arrives in the last one; through 101 it is an error *)
+Definition sn100 := chain_state s_mm_newindex (mkTab [] None) 100.
+Example ex_newindex_chain100 : forall n,
+  setindex (99 + S n) [] (head_of 100) k_z (VNum 5%float) 100 sn100 = Ret tt (rawset_state sn100 t0 k_z (VNum 5%float)).
+Proof.
+  intros n. assert (Hc : chain s_mm_newindex sn100 k_z (head_of 100) (links_of 100)) by (vm_compute; repeat split).
+  apply (setindex_chain_last_plain_lemma [] k_z (VNum 5%float) sn100 (links_of 100) (head_of 100) n 100 t0 Hc); try reflexivity.
+  vm_compute. repeat constructor.
+Qed.
+Definition sn101 := chain_state s_mm_newindex (mkTab [] None) 101.
+Example ex_newindex_chain101 : forall n,
+  setindex (100 + S n) [] (head_of 101) k_z (VNum 5%float) 100 sn101 = Err (VFault 1 (frames_line [])) sn101.
+Proof.
+  intros n. assert (Hc : chain s_mm_newindex sn101 k_z (head_of 101) (links_of 101)) by (vm_compute; repeat split).
+  apply (setindex_chain_beyond_depth_lemma [] k_z (VNum 5%float) sn101 (links_of 101) (head_of 101) n 100 Hc). reflexivity.
+Qed.
+
+(* rawequal of two distinct userdata sharing a metatable with __eq: false, nothing is called *)
+Example ex_rawequal_userdata : forall s, builtin_call 3 [] BRawEqual [VUd 0; VUd 1] s = Ret [VBool false] s.
+Proof. intros s. apply rawequal_never_calls_lemma. Qed.
